@@ -156,6 +156,11 @@ def run(R, env):
             st = d.get(("status",))
             R.ob("C06.R2", "ReceiveUnstakedTokens:status:=Received", st is not None and st[0] == "agg" and st[2] == "Received", "status := %s" % fmt(st or ("none",))[:80], loc=o["loc"], fn=hk)
             R.ob("C06.R2", "ReceiveUnstakedTokens:only-lifecycle-fields", set(d) <= {("status",), ("next_batch_action_time",), ("received_native_unstaked",)} and ("received_native_unstaked",) in d, "fields written: %s (expected_native_unstaked must never change after submission)" % sorted(".".join(p) for p in d), loc=o["loc"], fn=hk)
+            # "only through a staked-asset payment": the amount recorded is the ibc-denom coin attached to the message
+            # (no default when it is missing: `funds.find(denom)` absent is an error exit, not a zero)
+            rv = d.get(("received_native_unstaked",))
+            paid_ok = rv is not None and rv[0] == "agg" and rv[2] == "Some" and shared.is_reward(prog, rv[3][0][2])
+            R.ob("C06.R2", "ReceiveUnstakedTokens:received-amount-is-the-payment", paid_ok, "received_native_unstaked := %s; expected Some(amount of the ibc-denom coin attached to the message), a missing coin being an error" % fmt(rv or ("none",))[:160], loc=o["loc"], fn=hk)
     R.floor("C06.R2", "BATCHES writes in ReceiveUnstakedTokens", nrecv, 1)
     found = []
     ok, off = guarded(h, shared.status_guard(named, "Submitted"), prog, env.depth, found)
